@@ -175,8 +175,10 @@ def load_theory_cache(filename, username="master"):
                 if item.error is None:
                     theory.thy.unchecked_extend(item.get_extension())
 
-        # Use this theory to parse the content of current theory
-        cache['timestamp'] = timestamp
+        # Use this theory to parse the content of current theory. The
+        # timestamp is recorded only once the content is complete, so that a
+        # load interrupted by an exception is not mistaken for a valid cache.
+        cache.pop('timestamp', None)
         data = load_json_data(filename, username)
         cache['content'] = []
         for index, item in enumerate(data['content']):
@@ -191,6 +193,7 @@ def load_theory_cache(filename, username="master"):
                     else:
                         name = ext.name
                     item_index[username][(ext.ty, name)] = (filename, timestamp, index)
+        cache['timestamp'] = timestamp
 
     return cache
 
